@@ -5,7 +5,8 @@ switch ForwardOnlyEraUnfold) -> TLC decides the property section at scaled const
 Apalache decides the same formulas at the real constants, TLC enumerates the cases,
 harness/c04 replays them (and Apalache's counterexamples) on the real functions at the
 real constants, spec/trace/NtpTimeTrace.tla judges the recorded results (monitor) and
-compares them with the transcription (strict, both settings of the switch).
+compares them with the transcription (strict; the switch is FALSE = repaired by default since
+/repo commit 28e9272, the forward-only variant is kept as a specification self-test).
 """
 import glob, json, os, re, shutil, subprocess, threading, time
 import vlib
@@ -96,10 +97,9 @@ def run(ctx):
     apas = [Apa(ctx, i) for i in invs] if shutil.which("apalache-mc") else []
     for a in apas:
         a.start()
-    # the transcription of the code as it is (a counterexample here is a statement about
-    # the specification; it is replayed on the real functions below) and the case
-    # generator run next to the exhaustive configurations
-    bg_f = Bg(ctx, "NtpTimeMC", "NtpTime_faithful.cfg", workers=1, timeout=600, allow_violation=True, tag="faithful")
+    # the spec self-test (old forward-only unfolding) and the case generator run next to
+    # the exhaustive configurations
+    bg_f = Bg(ctx, "NtpTimeMC", "NtpTime_faithful.cfg", workers=1, timeout=600, allow_violation=True, tag="selftest-forward-only")
     bg_g = Bg(ctx, "NtpTimeMC", "NtpTime_gen.cfg" if q else "NtpTime_gendeep.cfg", workers=1, timeout=900, tag="gen")
 
     # 1. design level: the property section of NtpTime.tla with the repaired era
@@ -109,21 +109,22 @@ def run(ctx):
         r = ctx.tlc("NtpTimeMC", cfg, workers=6, timeout=1200)
         ctx.log("TLC %s: %d distinct states in %.0fs, property section holds (ForwardOnlyEraUnfold=FALSE)" % (
             cfg, r["distinct"], r["wall_s"]))
+    # spec self-test: the old forward-only unfolding must be refuted by the same property
+    # section; its counterexample is one more case for the real functions
     rf = bg_f.get()
     extra = []
-    if rf["violated"]:
-        m0 = re.findall(r"t0 = <<(-?\d+), (-?\d+)>>", rf["out"])
-        mt = re.findall(r"/\\ t = <<(-?\d+), (-?\d+)>>", rf["out"])
-        ctx.log("TLC NtpTime_faithful.cfg: %s refuted on the specification with ForwardOnlyEraUnfold=TRUE (t0=%s t=%s); "
-                "replaying on the real code" % (rf["violated"], m0[-1] if m0 else "?", mt[-1] if mt else "?"))
-        ctx.notes.append("spec-level: NtpTime with ForwardOnlyEraUnfold=TRUE violates %s at scaled t0=%s t=%s" % (
-            rf["violated"], m0[-1] if m0 else "?", mt[-1] if mt else "?"))
-        if m0 and mt:
-            r_, rn_ = map(int, m0[-1])
-            s_, n_ = map(int, mt[-1])
-            extra.append(dict(r=r_, rn=rn_, o=s_ - r_, n=n_, pos=(r_ + 33) % 64, era=(r_ + 33) // 64))
-    else:
-        ctx.log("TLC NtpTime_faithful.cfg: no counterexample")
+    if not rf["violated"]:
+        raise vlib.Inconclusive("spec self-test failed: NtpTime with ForwardOnlyEraUnfold=TRUE is not refuted")
+    m0 = re.findall(r"t0 = <<(-?\d+), (-?\d+)>>", rf["out"])
+    mt = re.findall(r"/\\ t = <<(-?\d+), (-?\d+)>>", rf["out"])
+    ctx.log("TLC NtpTime_faithful.cfg (self-test): %s refuted for ForwardOnlyEraUnfold=TRUE as expected (t0=%s t=%s); "
+            "case replayed on the real code" % (rf["violated"], m0[-1] if m0 else "?", mt[-1] if mt else "?"))
+    ctx.notes.append("spec self-test: NtpTime with ForwardOnlyEraUnfold=TRUE violates %s at scaled t0=%s t=%s" % (
+        rf["violated"], m0[-1] if m0 else "?", mt[-1] if mt else "?"))
+    if m0 and mt:
+        r_, rn_ = map(int, m0[-1])
+        s_, n_ = map(int, mt[-1])
+        extra.append(dict(r=r_, rn=rn_, o=s_ - r_, n=n_, pos=(r_ + 33) % 64, era=(r_ + 33) // 64))
 
     # 2. spec -> code: TLC enumerates (reference, time) cases with the spec's results
     g = bg_g.get()
@@ -190,7 +191,7 @@ def run(ctx):
     #    per (clause, structural class).
     nval, nbad = 0, 0
     chunk = 150000
-    conforms = {"NtpTimeTrace_strict.cfg": True, "NtpTimeTrace_strictrep.cfg": True}
+    conforms = {"NtpTimeTrace_strict.cfg": True, "NtpTimeTrace_strictfwd.cfg": True}
     drift_ex = {}
     found = {}      # signature -> [count, first record, invariant]
     for i in range(0, len(recs), chunk):
@@ -237,9 +238,10 @@ def run(ctx):
                         inv, cnt, real[1], real[0], bad["n0"], bad["n1"], bad["mind"], bad["maxd"],
                         bad["inversions"], bad["first_bad"]))
         ctx.violation(sig, what, bad)
-    # strict: which setting of the switch describes the code (forward-only first; the
-    # repaired transcription is consulted, on all records, only if that one fails)
-    for cfg in ("NtpTimeTrace_strict.cfg", "NtpTimeTrace_strictrep.cfg"):
+    # strict: the real results equal the transcription (repaired era unfolding, the
+    # specification's default).  If not, the old forward-only variant is consulted so
+    # that the DRIFT line says whether the code fell back to it.
+    for cfg in ("NtpTimeTrace_strict.cfg", "NtpTimeTrace_strictfwd.cfg"):
         for i in range(0, len(recs), chunk):
             pp = ctx.path("chunk.ndjson")
             vlib.write_ndjson(pp, recs[i:i + chunk])
@@ -251,15 +253,17 @@ def run(ctx):
         if conforms[cfg]:
             break
     if conforms["NtpTimeTrace_strict.cfg"]:
-        ctx.log("strict: the real functions equal NtpTime.tla with ForwardOnlyEraUnfold=TRUE on all %d records" % len(recs))
-        ctx.notes.append("code conforms to NtpTime with ForwardOnlyEraUnfold=TRUE")
-    elif conforms["NtpTimeTrace_strictrep.cfg"]:
-        ctx.log("strict: the real functions equal NtpTime.tla with ForwardOnlyEraUnfold=FALSE (repaired) on all %d records" % len(recs))
+        ctx.log("strict: the real functions equal NtpTime.tla (ForwardOnlyEraUnfold=FALSE) on all %d records" % len(recs))
         ctx.notes.append("code conforms to NtpTime with ForwardOnlyEraUnfold=FALSE")
     else:
-        inv, ex = drift_ex["NtpTimeTrace_strictrep.cfg"]
-        ctx.drift.append("real conversion differs from NtpTime.tla under both settings of ForwardOnlyEraUnfold "
-                         "(%s on %s)" % (inv, {k: ex[k] for k in ("k", "real", "t", "b", "bf", "br", "ds32", "dfrac") if k in ex} if ex else "?"))
+        inv, ex = drift_ex["NtpTimeTrace_strict.cfg"]
+        exs = {k: ex[k] for k in ("k", "real", "t", "b", "bf", "br", "ds32", "dfrac") if k in ex} if ex else "?"
+        if conforms["NtpTimeTrace_strictfwd.cfg"]:
+            ctx.drift.append("real conversion differs from NtpTime.tla (%s) and equals the old forward-only variant "
+                             "ForwardOnlyEraUnfold=TRUE on all records, e.g. %s" % (inv, exs))
+        else:
+            ctx.drift.append("real conversion differs from NtpTime.tla under both settings of ForwardOnlyEraUnfold "
+                             "(%s on %s)" % (inv, exs))
 
     rts = [r for r in recs if r["k"] == "rt"]
     aggs = [r for r in recs if r["k"] == "agg"]
